@@ -31,6 +31,15 @@ def norm_src(s):
     return ast.unparse(ast.parse(s).body[0])
 
 
+def pat_match(pat, src):
+    """statement pattern: the statement's normalised text (first line for a compound statement); '...' makes everything after it irrelevant
+    ('yield ...' = any yield, 'if not is_url(url, ...):' = that test whatever its further arguments)"""
+    if pat == src:
+        return True
+    i = pat.find("...")
+    return i >= 0 and src.startswith(pat[:i])
+
+
 class FunctionCtx(object):
     """everything the evaluator needs to know about the function under verification"""
 
@@ -174,7 +183,7 @@ class Executor(object):
         outs = []
         # site assertions / ghost code attached to this statement (a pattern ending in '...' matches by prefix: 'yield ...')
         def keys(tbl):
-            return [k for k in tbl if k == src or (k.endswith("...") and src.startswith(k[:-3]))]
+            return [k for k in tbl if pat_match(k, src)]
         for k in keys(self.pat_asserts):
             self.matched_patterns.add(("a", k))
             for i, a in enumerate(self.pat_asserts[k]):
@@ -546,7 +555,7 @@ class Executor(object):
                     src = src.split("\n")[0]
                 for tbl in (self.pat_ghost_after, self.pat_ghost_before):
                     for k in tbl:
-                        if k == src or (k.endswith("...") and src.startswith(k[:-3])):
+                        if pat_match(k, src):
                             targets(tbl[k])
                 if isinstance(n, (ast.For, ast.While)):
                     nloop[0] += 1
